@@ -922,9 +922,9 @@ def extract_simplifier(high, low, val):
         return (val.args[2])[new_high:new_low]
 
     if val.op == "Reverse" and val.args[0].op == "Concat" and all(a.length % 8 == 0 for a in val.args[0].args):
-        val = claripy.Concat(*reversed([a.reversed for a in val.args[0].args]))[high:low]
-        if not val.symbolic:
-            return val
+        extracted = claripy.Concat(*reversed([a.reversed for a in val.args[0].args]))[high:low]
+        if not extracted.symbolic:
+            return extracted
 
     # if all else fails, convert Extract(Reverse(...)) to Reverse(Extract(...))
     # if val.op == 'Reverse' and (high + 1) % 8 == 0 and low % 8 == 0:
